@@ -99,7 +99,7 @@ fn chacha(seed: u64, tag: &[u8; 4]) -> rand_chacha::ChaCha20Rng {
 
 /// (receiver tape, sender tape).
 /// tweak 0: random; 1: beta all-0; 2: beta all-1; 3: ext: all-zero tapes (eta0 = 0) / ot: first scalar draw of every
-/// party >= q (rejection sampling retries); 4: ext: all-FF tapes
+/// party >= q (rejection sampling retries); 4: ext: all-FF tapes; 5: ext: all-zero sender tape only (eta0 = 0, beta random)
 fn tapes(v: Variant, seed: u64, tweak: u32) -> (Vec<u8>, Vec<u8>) {
     let mut rng = chacha(seed, b"c01t");
     match v {
@@ -111,6 +111,7 @@ fn tapes(v: Variant, seed: u64, tweak: u32) -> (Vec<u8>, Vec<u8>) {
                 2 => r[..L_BYTES].iter_mut().for_each(|b| *b = 0xff),
                 3 => { r.iter_mut().for_each(|b| *b = 0); s.iter_mut().for_each(|b| *b = 0); }
                 4 => { r.iter_mut().for_each(|b| *b = 0xff); s.iter_mut().for_each(|b| *b = 0xff); }
+                5 => s.iter_mut().for_each(|b| *b = 0),
                 _ => {}
             }
             (r, s)
@@ -408,6 +409,13 @@ fn class_of(x: &Scalar) -> &'static str {
 fn judge(cx: &mut Ctx, base: &Base, stream: &str, idx: u64, line: &str, name: &str, msg: &[u8], got: &Option<Result<Shares, String>>) {
     let off = base.key.variant().core_off();
     let touches_core = msg[off..] != base.msg2[off..];
+    // EXCLUDED POINT (probability 2^-512): with beta = 0 no verifier of this protocol reads eta (it only enters as beta_j * eta)
+    let eo = off + A_BYTES;
+    if base.beta.iter().all(|b| *b == 0) && msg[..eo] == base.msg2[..eo] && msg[eo + E_BYTES..] == base.msg2[eo + E_BYTES..] {
+        cx.rep.hist("excluded-point:beta=0 (eta is never read)");
+        if let Some(Ok(d)) = got { if !relation_ok(&base.a, &base.b, &base.c, d) { cx.pred(stream, idx, line, "rvole:excluded-point-relation", "eta altered at beta = 0: accepted with shares violating the relation".into(), &res_str(got), "c+d == a*b"); } }
+        return;
+    }
     match got {
         None => cx.pred(stream, idx, line, &format!("rvole:tamper-panic:{name}"), format!("the receiver panics on an altered round-two message ({name})"), "panic", "Err"),
         Some(Err(_)) => cx.rep.hist("tamper-verdict:err"),
@@ -497,6 +505,13 @@ fn mutation(base: &Base, name: &str, pseed: u64) -> Option<(Vec<u8>, Option<Stri
         "complement" => { let (o, l) = target(&mut rng)?; let d: Vec<u8> = base.msg2[o..o + l].iter().map(|b| !*b).collect(); set(&mut m, o, d, &mut op); }
         "increment" => { // the scalar + 1 (big-endian), a minimal arithmetic change
             let (o, l) = target(&mut rng)?; let mut d = base.msg2[o..o + l.min(KAPPA_BYTES)].to_vec(); let mut i = d.len(); loop { i -= 1; d[i] = d[i].wrapping_add(1); if d[i] != 0 || i == 0 { break; } } set(&mut m, o, d, &mut op); }
+        "noncanonical" => { // the same scalar in its second 256-bit encoding x + q (exists only for x < 2^256 - q)
+            let (o, _) = target(&mut rng)?;
+            const Q: [u8; 32] = [0xFF,0xFF,0xFF,0xFF,0xFF,0xFF,0xFF,0xFF,0xFF,0xFF,0xFF,0xFF,0xFF,0xFF,0xFF,0xFE,0xBA,0xAE,0xDC,0xE6,0xAF,0x48,0xA0,0x3B,0xBF,0xD2,0x5E,0x8C,0xD0,0x36,0x41,0x41];
+            let mut d = base.msg2[o..o + KAPPA_BYTES].to_vec(); let mut carry = 0u16;
+            for i in (0..32).rev() { let t = d[i] as u16 + Q[i] as u16 + carry; d[i] = t as u8; carry = t >> 8; }
+            if carry != 0 { return Some((m, None)); }      // no second encoding: no-op
+            set(&mut m, o, d, &mut op); }
         "overwrite-byte" => { let o = off + rng.gen_range(0..CORE_BYTES); let d = vec![base.msg2[o].wrapping_add(1 + rng.gen_range(0..255u8))]; set(&mut m, o, d, &mut op); }
         "swap" => match rest {
             "rows" => { let i = rng.gen_range(0..XI); let j = (i + 1 + rng.gen_range(0..XI - 1)) % XI; swap(&mut m, row(i), row(j), ROW, &mut op); }
@@ -847,6 +862,28 @@ fn run_c02(o: &Opts, cx: &mut Ctx) {
         scenario(cx, &format!("{} honest", key.line()));
     }
     if timing { eprintln!("honest {:?}", t0.elapsed()); }
+    // ---- directed: the receiver reduces eta modulo q, so a check value x < 2^256 - q has a second encoding x + q.  With
+    //      a = (0, 0) and an all-zero sender tape eta is 0 and the bytes of q are accepted in its place.
+    {
+        let key = key_of(Variant::Ext, "syn", gen_sid(&mut rng, 2), &[Scalar::ZERO, Scalar::ZERO], rng.next_u64() >> 1, 5);
+        cx.cache.clear();
+        if let Some(base) = cx.base(&key) {
+            for name in ["noncanonical:eta", "noncanonical:check-entry", "noncanonical:entry"] {
+                if let Some((m, op)) = mutation(&base, name, 7) { altered(cx, &base, "noncanonical-encoding", &format!("{} mut {} 7", key.line(), name), name, &m, op); }
+            }
+        }
+    }
+    // ---- directed excluded point: beta = 0, alterations of eta
+    {
+        let key = key_of(Variant::Ext, "syn", gen_sid(&mut rng, 3), &[rand_scalar(&mut rng), Scalar::ONE], rng.next_u64() >> 1, 1);
+        cx.cache.clear();
+        if let Some(base) = cx.base(&key) {
+            let p0 = A_BYTES * 8;
+            let ps = [p0, p0 + 77, p0 + 255];
+            flips(cx, &base, "excluded-point", &ps, &ps.iter().map(|p| format!("{p:x}")).collect::<Vec<_>>().join(","));
+            if let Some((m, op)) = mutation(&base, "overwrite-random:eta", 9) { altered(cx, &base, "excluded-point", &format!("{} mut overwrite-random:eta 9", key.line()), "overwrite-random:eta", &m, op); }
+        }
+    }
     let bases = (if thorough { 2 } else { 1 }) * o.scale as usize;
     for round in 0..bases {
         for v in [Variant::Ext, Variant::Ot] {
@@ -913,6 +950,7 @@ fn run_c02(o: &Opts, cx: &mut Ctx) {
     }
     cx.rep.notes.push("single-bit flips of a_tilde are compared with the model on a random sample (each costs the model two 128 KiB transcript queries); in the thorough tier EVERY bit of the RVOLEOutput of one OT-extension exchange is flipped against the real receiver (predicate only), and every bit of eta / mu_hash also against the model".into());
     cx.rep.notes.push("base-OT variant: an alteration confined to the slots of ot_msg2 that the receiver does not read is accepted with the honest shares (the clause 'otherwise it aborts or the relation is intact'); an alteration of a slot it reads changes the base-OT key and is rejected by the consistency check or by the point decoder".into());
+    cx.rep.notes.push("excluded point: with beta = 0 (all 512 choice bits zero, probability 2^-512) eta is never read by any verifier of this protocol; alterations of eta are then accepted with b = 0 and the relation intact (directed cases, compared with the model, not counted as failures)".into());
     cx.rep.notes.push("excluded point: the complete (a_tilde, eta, mu_hash) of a run that shares the whole OT state and eta0 but has another sender input is an honest message for that input; it is accepted by any verifier of this protocol and the shares satisfy the relation for that input (checked, not counted as a tamper case)".into());
 }
 
